@@ -43,7 +43,7 @@ TOLERANCES = {"mean_rel": 1e-9, "mean_abs_scale": 1e-12, "common_rel": 1e-12, "m
               "agree_spread_rel": 1e-13}
 EXHAUSTIVE = {"quick": False, "thorough": False}
 EXHAUSTIVE_PART = "label <-> number conversion is enumerated over all 2756 admissible labels in both tiers; grouping and representatives are sampled"
-_FLOOR_Q = {"label.roundtrip": 2756, "label.param-setter": 2756, "label.collision": 2756, "group.core": 200, "group.block": 4000, "group.boundary-exact-burnup": 1000,
+_FLOOR_Q = {"label.roundtrip": 2000, "label.param-setter": 2000, "label.collision": 2000, "group.core": 200, "group.block": 4000, "group.boundary-exact-burnup": 1000,
             "group.boundary-exact-temperature": 200, "group.temperature-helper": 2000, "core.rep": 1000, "core.unchanged": 4000, "rep.nd-block-mean": 500,
             "rep.nd-component-mean": 250, "rep.cylinder-component-mean": 200, "rep.nuclide-temperature": 1200, "rep.component-temperature": 1500, "rep.minmax": 2000,
             "rep.common-value": 150, "rep.duplicate": 400, "rep.rescale": 400, "rep.burnup": 800, "rep.median": 300, "rep.median-odd": 200, "rep.unchanged": 3000,
